@@ -1874,8 +1874,8 @@ def check_C20(ck):
                     "program": "tools/hprog.py prog_use_definitions(%d, %d, %r, %r)" % (nl, nr, holes, form_of[int(name[2:])])})
                 ck.violation(path, found)
     ck.coverage = proof_coverage(ck, ["C20"], {
-        "evaluations": len(cases), "distinct_nontrivial": len({repr(c) for c in cases if c[0] * c[1] > 1}),
-        "programs": len(cases), "disagreements_checked": bad,
+        "evaluations": len(cases) + len(agg_sizes), "distinct_nontrivial": len({repr(c) for c in cases if c[0] * c[1] > 1}) + len([n_ for n_ in agg_sizes if n_ > 1]),
+        "programs": len(cases) + len(agg_sizes), "disagreements_checked": bad, "definition_forms": form_of,
         "rule": "generated programs: a 2-method over Base with leaf classes L<i>, R<j>, a definition template (providing fn as a static member function, a constexpr function pointer or a function reference, in turn) specialised to not_defined on a random subset, "
                 "use_definitions over product<types<M>, Ls, Rs>; the program prints the compile-time product in order, the definitions found in the method's "
                 "catalog and the result of dispatching through every combination; the model predicts all three. Sizes 1..7 per list plus products on both sides of the 512 split (with an odd number of kept combinations); "
